@@ -38,6 +38,15 @@ func hexDigitValue(ch byte) int {
 	return 0
 }
 
+// mustStayEscaped reports whether a code point decoded from an escape sequence
+// cannot be written raw into the (double-quoted) string the compiler emits:
+// the quote, the backslash, line terminators, and surrogate code units, which
+// have no UTF-8 encoding of their own.
+func mustStayEscaped(codePoint int) bool {
+	return codePoint == '"' || codePoint == '\\' || codePoint == '\n' || codePoint == '\r' ||
+		(codePoint >= 0xD800 && codePoint <= 0xDFFF)
+}
+
 // encodeUTF8 converts a Unicode code point to UTF-8 byte sequence
 func encodeUTF8(codePoint int) []byte {
 	if codePoint <= 0x7F {
